@@ -255,6 +255,8 @@ class Axioms:
                 nolemma[g.get_id()] = g
                 add(g == t)
                 self.table()
+        elif d.kind() == z3.Z3_OP_SEQ_CONCAT and YAML_HOOK:
+            YAML_HOOK[0](self, t)
         elif d.kind() == z3.Z3_OP_SELECT and t.arg(0).sort() == Lines:
             self.inst_select(t)
         elif n == "ndigits":
@@ -293,6 +295,9 @@ class Axioms:
             c = z3.StringVal(nm)
             for f in (rm_us(rm_dash(c)), dash2us(c), lower(c), rm_us(rm_dash(lower(c)))):
                 self.out.append(f == z3.StringVal(pyeval(f)))
+
+
+YAML_HOOK = []
 
 
 PYFUN = {
